@@ -132,6 +132,20 @@ unsafe impl GlobalAlloc for CountingAlloc {
     }
 }
 
+/// Bytes currently allocated by the code under accounting on this thread (0 when accounting is off).
+pub fn live_bytes() -> isize {
+    A_LIVE.try_with(Cell::get).unwrap_or(0)
+}
+/// The harness's own readers refuse to go on once the code they feed holds this much: an implementation whose
+/// memory grows with every short read would otherwise take the whole machine down before any oracle runs.
+pub const READER_MEMORY_STOP: isize = 256 << 20;
+fn reader_stop() -> std::io::Result<()> {
+    if live_bytes() > READER_MEMORY_STOP {
+        return Err(std::io::Error::new(std::io::ErrorKind::OutOfMemory, "harness reader: the consumer holds more than 256 MiB"));
+    }
+    Ok(())
+}
+
 #[derive(Clone, Copy, Debug, Default)]
 pub struct AllocStats {
     pub max_request: usize,
@@ -206,6 +220,7 @@ impl<'a> RecReader<'a> {
 }
 impl Read for RecReader<'_> {
     fn read(&mut self, buf: &mut [u8]) -> std::io::Result<usize> {
+        reader_stop()?;
         let len = self.data.len() as u64;
         let start = self.pos.min(len) as usize;
         let n = buf.len().min(self.data.len() - start);
@@ -238,6 +253,7 @@ pub struct DribbleReader<'a> {
 }
 impl Read for DribbleReader<'_> {
     fn read(&mut self, buf: &mut [u8]) -> std::io::Result<usize> {
+        reader_stop()?;
         if buf.is_empty() || self.pos >= self.data.len() {
             return Ok(0);
         }
